@@ -9,6 +9,12 @@ TRUST = [
 ]
 
 CONFIG = {
+    "C11": {
+        "level": "exploration",
+        "assumptions": TRUST + ["completion order of the concurrent HTTP calls is controlled at the transport (calls are parked and released by drawn priorities); the reducer's own interleaving is reached only through it"],
+        "quick": {"tests": [("TestC11Grid", 0), ("TestC11", 400)], "shards": 4, "timeout": 600},
+        "thorough": {"tests": [("TestC11Grid", 0), ("TestC11", 6000)], "shards": 16, "timeout": 2400, "race": True},
+    },
     "C07": {
         "level": "exploration",
         "assumptions": TRUST + ["'cannot be decoded' is judged by an independent reading of the documented request shape; bodies whose classification the statement leaves open (empty query, odd-case or duplicate keys, multipart without files) accept 200 or 422",
